@@ -689,3 +689,81 @@ def refresh_asks_for_the_due_type(ctx, P, pre):
             bad.append("RRType::%s recorded at %s under the test on DnsCache.%s" % (v, where_, under[0]))
     ctx.ob(pre + ".refresh-asks-for-the-due-type", f.name, n >= 2 and not bad, f.loc(),
            "%d type value(s), each the type of the map whose records are due" % n if not bad else "; ".join(bad))
+
+
+# ------------------------------------------------------------------------------------------------
+def compares_like_with_like(ctx, P, pre, fnames=("matches", "compare_rdata", "rrdata_match")):
+    """every `==` / cmp in the record-identity and tiebreak comparisons pairs a field of self with the SAME field of the
+    other record (weight with weight, not weight with priority): for records whose fields hold different values the two
+    sides of a simultaneous probe otherwise reach the same verdict, and a record no longer matches a copy of itself"""
+    n = 0
+    for f in P.lib_fns():
+        if f.in_tests() or f.is_closure or not f.impl_trait or not str(f.impl_trait).endswith("DnsRecordExt") or f.short.split("::")[-1] not in fnames:
+            if not (not f.in_tests() and not f.is_closure and any(f.name.endswith(">::" + x) for x in fnames) and "DnsRecordExt" in f.name):
+                continue
+        tr = tracer(P, f)
+        pairs = []
+        for b, t in f.calls():
+            if method(cname(t)) in ("eq", "ne", "cmp", "partial_cmp") and len(t["args"]) == 2:
+                pairs.append((b, tr.operand(t["args"][0], endpos(f, b)), tr.operand(t["args"][1], endpos(f, b))))
+        for b, i, s in f.assigns():
+            if s["r"]["k"] == "binop" and s["r"]["op"] in ("Eq", "Ne", "Lt", "Le", "Gt", "Ge"):
+                e = tr.rvalue(s["r"], (b, i))
+                pairs.append((b, e[2], e[3]))
+        for (b, l, r) in pairs:
+            def last_field(e):
+                fs = [x[2] for x in walk(e) if x[0] == "field" and isinstance(x[2], str) and (x[3] or "").startswith("dns_parser::Dns")]
+                return fs[0] if fs else None
+            fl, fr = last_field(l), last_field(r)
+            if fl is None or fr is None:
+                continue
+            n += 1
+            ctx.ob(pre + ".compares-like-with-like", "%s|%s~%s" % (f.name, fl, fr), fl == fr, f.loc(b),
+                   "%s is compared with the other record's %s" % (fl, fr) if fl == fr else
+                   "%s of one record is compared with %s of the other: records whose two fields differ are mis-ordered / do not match themselves" % (fl, fr))
+    ctx.floor(pre + ".compares-like-with-like", n, 10, "field-to-field comparisons in matches / compare_rdata / rrdata_match")
+
+
+def resend_goes_out_on_the_family_it_was_built_for(ctx, P, pre):
+    """exec_command_unregister builds one goodbye per IP family and queues its repeat as Command::UnregisterResend(packet,
+    if_index, is_ipv4): the flag is true exactly in the branch that used the IPv4 socket.  With the wrong flag the repeat
+    of the IPv6 goodbye leaves through the IPv4 socket (or not at all)"""
+    f = P.one("Zeroconf::exec_command_unregister")
+    tr = tracer(P, f)
+    e4 = guard_edges(P, f, lambda atom, outcome, bb: atom[0] == "variant" and outcome == frozenset(["Some"]) and expr_mentions_field(atom[1], "ipv4_sock", "Zeroconf"))
+    e6 = guard_edges(P, f, lambda atom, outcome, bb: atom[0] == "variant" and outcome == frozenset(["Some"]) and expr_mentions_field(atom[1], "ipv6_sock", "Zeroconf"))
+    sites = [(b, i, s) for b, i, s in aggregates(f, "service_daemon::Command", "UnregisterResend")]
+    ctx.require(bool(e4) and bool(e6) and len(sites) >= 2, pre + ".anchor", f.name + "|per-family resend", f.loc(), "%d/%d guards, %d resend site(s)" % (len(e4), len(e6), len(sites)))
+    for k, (b, i, s) in enumerate(sites):
+        flag = fold(tr.operand(s["r"]["ops"][2], (b, i))) if len(s["r"]["ops"]) > 2 else None
+        in4 = must_pass_edges(f, b, e4)
+        in6 = must_pass_edges(f, b, e6)
+        ok = (in4 != in6) and flag in (0, 1) and bool(flag) == in4
+        ctx.ob(pre + ".resend-on-its-own-family", "%s|UnregisterResend#%d" % (f.name, k + 1), ok, f.loc(b, i),
+               "built in the %s branch with is_ipv4 = %s" % ("IPv4" if in4 else "IPv6", bool(flag)) if ok else
+               "the repeat of the goodbye built for %s is queued with is_ipv4 = %s" % ("IPv4" if in4 else "IPv6" if in6 else "?", flag))
+
+
+def changed_instance_is_the_ptr_target(ctx, P, pre):
+    """handle_response collects the instances whose records changed and resolves them afterwards.  For a new PTR record
+    the instance is the PTR's target (DnsPointer::alias), not the record's own name (the service type): otherwise an
+    instance whose PTR arrives last is found but never resolved"""
+    f = P.one("Zeroconf::handle_response")
+    tr = tracer(P, f)
+    sites = list(aggregates(f, "InstanceChange"))
+    ctx.require(len(sites) >= 2, pre + ".anchor", f.name + "|InstanceChange", f.loc(), "%d construction(s)" % len(sites))
+    e_ptr = guard_edges(P, f, lambda atom, outcome, bb: atom[0] == "variant" and outcome == frozenset(["Some"]) and
+                        any(x[0] == "call" and "downcast_ref" in x[1] and "DnsPointer" in x[1] for x in walk(atom[1])))
+    adt = [a for a in P.adts if a.endswith("InstanceChange")]
+    fields = P.adt_fields(adt[0]) if adt else []
+    ni = fields.index("name") if "name" in fields else 1
+    n = 0
+    for k, (b, i, s) in enumerate(sites):
+        e = tr.operand(s["r"]["ops"][ni], (b, i))
+        under_ptr = bool(e_ptr) and must_pass_edges(f, b, e_ptr)
+        if under_ptr:
+            n += 1
+            ok = has_call(e, "DnsPointer::alias")
+            ctx.ob(pre + ".changed-instance-is-the-ptr-target", "%s|InstanceChange#%d" % (f.name, k + 1), ok, f.loc(b, i),
+                   "for a PTR the changed instance is DnsPointer::alias()" if ok else "for a PTR the changed `instance` is %s, not the PTR's target" % show(e)[:60])
+    ctx.floor(pre + ".changed-instance-is-the-ptr-target", n, 1, "InstanceChange built for a PTR record")
